@@ -286,20 +286,71 @@ func checkPositions(n ast.Node) (err error) {
 	return nil
 }
 
-// parenthesize adds the parentheses that go/printer does not add on its own
-// because go/parser never produces these trees without a ParenExpr, but
-// substituting a metavariable can: "*x" with x = "a + b" has to be printed
-// as "*(a + b)", and "chan T" with T = "<-chan int" as "chan (<-chan int)".
+// parenthesize adds the parentheses that Go's syntax needs where substituting
+// a metavariable built a tree that go/parser never produces without a
+// ParenExpr: "*x" or "2 * x" with x = "a + b", "x.f" with x = "-a", "chan T"
+// with T = "<-chan int".
+//
+// go/printer prints most of them on its own ("*(a + b)" and "chan (<-chan
+// int)" it does not), but a later change of the same run matches against the
+// tree, not the text: without the ParenExpr, '2 * (y)' matches the file that
+// the previous change wrote and not the tree that it left behind.
 func parenthesize(file *ast.File) {
+	// The parentheses are where the text they enclose is: go/parser never
+	// leaves them without a position, and a pattern with parentheses only
+	// matches parentheses that have one.
+	paren := func(x ast.Expr) ast.Expr {
+		return &ast.ParenExpr{Lparen: x.Pos(), X: x, Rparen: x.End()}
+	}
+	// operand of a binary expression; atLeast is the lowest precedence
+	// that needs no parentheses there.
+	binary := func(x ast.Expr, atLeast int) ast.Expr {
+		if b, ok := x.(*ast.BinaryExpr); ok && b.Op.Precedence() < atLeast {
+			return paren(x)
+		}
+		return x
+	}
+	// operand of a unary operator
+	unary := func(x ast.Expr) ast.Expr {
+		if _, ok := x.(*ast.BinaryExpr); ok {
+			return paren(x)
+		}
+		return x
+	}
+	// operand of a selector, index, slice, call or type assertion
+	primary := func(x ast.Expr) ast.Expr {
+		switch x.(type) {
+		case *ast.BinaryExpr, *ast.UnaryExpr, *ast.StarExpr:
+			return paren(x)
+		}
+		return x
+	}
+
 	ast.Inspect(file, func(n ast.Node) bool {
 		switch n := n.(type) {
+		case *ast.BinaryExpr:
+			prec := n.Op.Precedence()
+			n.X = binary(n.X, prec)
+			n.Y = binary(n.Y, prec+1)
+		case *ast.UnaryExpr:
+			n.X = unary(n.X)
 		case *ast.StarExpr:
-			if _, ok := n.X.(*ast.BinaryExpr); ok {
-				n.X = &ast.ParenExpr{X: n.X}
-			}
+			n.X = unary(n.X)
+		case *ast.SelectorExpr:
+			n.X = primary(n.X)
+		case *ast.IndexExpr:
+			n.X = primary(n.X)
+		case *ast.IndexListExpr:
+			n.X = primary(n.X)
+		case *ast.SliceExpr:
+			n.X = primary(n.X)
+		case *ast.TypeAssertExpr:
+			n.X = primary(n.X)
+		case *ast.CallExpr:
+			n.Fun = primary(n.Fun)
 		case *ast.ChanType:
 			if v, ok := n.Value.(*ast.ChanType); ok && n.Dir == ast.SEND|ast.RECV && v.Dir == ast.RECV {
-				n.Value = &ast.ParenExpr{X: n.Value}
+				n.Value = paren(n.Value)
 			}
 		}
 		return true
